@@ -249,7 +249,7 @@ impl Policy {
 
 ////////////////////////////////////////// on-disk observers ///////////////////////////////////////
 
-#[derive(Clone, Debug, Default)]
+#[derive(Clone, Debug, Default, PartialEq, Eq)]
 pub struct EditRec {
     pub added: Vec<String>,
     pub removed: Vec<String>,
@@ -410,6 +410,9 @@ pub struct History {
     /// every fragment ever read, by id (the newest file changes id when it is rolled)
     seen_frags: BTreeMap<u64, Vec<EditRec>>,
     ledger_checked: HashSet<String>,
+    /// the directory was produced by a crash: the verifier's acceptance is only promised for
+    /// histories without faults, so its verdict is recorded, not demanded
+    pub crash_image: bool,
 }
 
 fn key_space(rng: &mut Rng) -> Vec<Vec<u8>> {
@@ -470,6 +473,42 @@ impl History {
             nontrivial: false,
             seen_frags: BTreeMap::new(),
             ledger_checked: HashSet::new(),
+            crash_image: false,
+        }
+    }
+
+    /// A history object over an existing directory (crash images): observers only.
+    pub fn attach(root: &Path, cfg: Config, keys: Vec<Vec<u8>>) -> Self {
+        let policy = Policy::parse(&cfg.gc).expect("policy parses");
+        Self {
+            root: root.to_path_buf(),
+            cfg,
+            focus: "C02".to_string(),
+            tmode: false,
+            backend: None,
+            keys,
+            model: BTreeMap::new(),
+            ever: HashSet::new(),
+            next_val: 1,
+            next_ts: 1,
+            steps: Vec::new(),
+            held: Vec::new(),
+            dumps: HashMap::new(),
+            cov: BTreeMap::new(),
+            policy,
+            gc_seen: false,
+            ingest_seq: 0,
+            nontrivial: false,
+            seen_frags: BTreeMap::new(),
+            ledger_checked: HashSet::new(),
+            crash_image: false,
+        }
+    }
+
+    pub(crate) fn kvs(&self) -> Option<&'static KeyValueStore> {
+        match self.backend.as_ref()? {
+            Backend::Kvs(k) => Some(k),
+            _ => None,
         }
     }
 
@@ -1055,15 +1094,29 @@ impl History {
     }
 
     /// C04: the ledger monitor.
-    fn check_ledger(&mut self) -> Result<(), Viol> {
+    pub(crate) fn check_ledger(&mut self) -> Result<(), Viol> {
         let root = self.root.clone();
         let frags = fragment_paths(&root);
         let mut prev_state: Option<(BTreeSet<String>, Option<Setsum>)> = None;
         let mut nedits = 0u64;
         let mut listed: BTreeSet<String> = BTreeSet::new();
         let mut last_o: Option<Setsum> = None;
-        for (fi, (id, p)) in frags.iter().enumerate() {
+        let mut read: Vec<(u64, Vec<EditRec>)> = Vec::new();
+        for (id, p) in frags.iter() {
             let edits = read_fragment(p).map_err(|e| v("C04", "manifest-unreadable", format!("{}: {e}", p.display())))?;
+            // a crash between "link MANIFEST to its backup name" and "rename the new fragment over
+            // MANIFEST" leaves the same fragment under two names (the second possibly extended
+            // since): one fragment, not two
+            if let Some((_, prev)) = read.last() {
+                if edits.len() >= prev.len() && edits[..prev.len()] == prev[..] {
+                    read.pop();
+                    self.count("c04.fragment_linked_twice_after_crash", 1);
+                }
+            }
+            read.push((*id, edits));
+        }
+        for (fi, (id, edits)) in read.iter().enumerate() {
+            let edits = edits.clone();
             self.seen_frags.insert(*id, edits.clone());
             let mut state: BTreeSet<String> = BTreeSet::new();
             let mut o_prev: Option<Setsum> = None;
@@ -1160,6 +1213,11 @@ impl History {
         for (_, p) in &frags {
             let mv = lsmtk::ManifestVerifier::open().map_err(|e| v("C04", "verifier-open", e.to_string()))?;
             if let Err(e) = mv.verify(p) {
+                if self.crash_image {
+                    self.count("c04.crash_images_manifest_verifier_rejects", 1);
+                    self.steps.push(format!("manifest verifier rejects {}: {e}", p.display()));
+                    continue;
+                }
                 return Err(v("C04", "manifest-verifier-rejects-fault-free-history", format!("{}: {e}", p.display())));
             }
         }
@@ -1167,7 +1225,7 @@ impl History {
     }
 
     /// C01 structural invariant at a quiescent point.
-    fn check_structure(&mut self, after_open: bool) -> Result<(), Viol> {
+    pub(crate) fn check_structure(&mut self, after_open: bool) -> Result<(), Viol> {
         let root = self.root.clone();
         let levels = self.tree().verif_levels();
         if std::env::var("VH_TRACE_LEVELS").is_ok() {
